@@ -7,11 +7,20 @@
 //! goes left) by the harness, which yields the sample set of every node, and everything the
 //! property states is recomputed from those sets in f64 (no linfa code in the oracle).
 //!
-//! Hash-map iteration order (leaf-majority ties, impurity summation order inside linfa-trees) is
-//! made a controlled input: the binary overrides libc's `getrandom` (std reads the SipHash keys of
-//! `RandomState` through it) and every case runs on a fresh thread whose keys derive from the
-//! case's `hash_seed`. So `run_case` is a pure function of the case, and the oracle accepts any
-//! weighted mode / any summation order anyway.
+//! Two pieces of machinery keep `run_case` a pure, replayable function of the case:
+//! * Hash-map iteration order (leaf-majority ties, impurity summation order inside linfa-trees) is a
+//!   controlled input: the binary overrides libc's `getrandom` (std reads the SipHash keys of
+//!   `RandomState` through it) and every case runs on a fresh thread whose keys derive from the
+//!   case's `hash_seed`. The oracle accepts any weighted mode / any summation order anyway.
+//! * The subject runs in worker processes (this binary with `--c14-worker`, one per harness
+//!   thread, fed one case per line): `TreeNode::fit` can recurse without end, and the stack overflow
+//!   that follows aborts the process - `catch_unwind` cannot contain it. A worker that dies names
+//!   the configuration it was running (SIGABRT handler); that is a violation, and the case is run
+//!   again without that configuration.
+//!
+//! Development aids (environment): C14_FAMILY=<substring> restricts the sweep (marked
+//! non-exhaustive), C14_TRACE=1 prints every fit, C14_UNGUARDED=1 skips the bounded pre-fit before
+//! unbounded fits (to watch the real stack overflow from a replay file).
 
 use std::cell::Cell;
 use std::collections::VecDeque;
@@ -94,12 +103,28 @@ struct Case {
     label_type: String, // "usize" | "bool" | "string"
     /// n rows x d features (literal values; rounded to the float type before use)
     x: Vec<Vec<f64>>,
+    /// the same values as IEEE-754 bit patterns: serde_json's default float parsing is only
+    /// "best effort" for 17-digit decimals, and one ulp matters in the adjacency families; when
+    /// present these are authoritative
+    #[serde(default)]
+    x_bits: Vec<Vec<u64>>,
     /// class index of every row (usize: the index itself, bool: index == 1, string: "a".."f")
     y: Vec<usize>,
     weights: Option<Vec<f32>>,
     hash_seed: u64,
     /// every configuration is fitted, in this order, on one fresh thread
     configs: Vec<Config>,
+}
+
+impl Case {
+    fn exact(mut self) -> Case {
+        if !self.x_bits.is_empty() {
+            self.x = self.x_bits.iter().map(|r| r.iter().map(|&b| f64::from_bits(b)).collect()).collect();
+        } else {
+            self.x_bits = self.x.iter().map(|r| r.iter().map(|v| v.to_bits()).collect()).collect();
+        }
+        self
+    }
 }
 
 /// A violation before the (bulky) case is attached; crosses the child-process boundary.
@@ -112,7 +137,7 @@ struct RawViol {
 
 enum Event {
     Start(usize),
-    Done(usize, Vec<RawViol>, Stats),
+    Done(Vec<RawViol>, Stats),
 }
 
 /// In-memory form of a case (the grid is shared); expanded to a self-contained `Case` when run.
@@ -164,12 +189,14 @@ fn expand(l: &Lite, with_configs: bool) -> Case {
         family: l.family.into(),
         float: l.float.into(),
         label_type: l.label_type.into(),
+        x_bits: Vec::new(),
         x: l.xi.iter().map(|&i| l.alphabet[i as usize].clone()).collect(),
         y: l.y.iter().map(|&k| k as usize).collect(),
         weights,
         hash_seed: l.hash_seed,
         configs: if with_configs { grid(l.grid, l.weights) } else { Vec::new() },
     }
+    .exact()
 }
 
 /// Restricted growth strings of length n with at most `max_classes` classes: every labeling of n
@@ -715,7 +742,7 @@ fn check_one<F: Float, L: Label + Default + std::fmt::Debug>(
     }
     let mid = tree.mean_impurity_decrease();
     let want_mid: Vec<f64> = (0..d).map(|j| if dec_cnt[j] == 0 { 0.0 } else { dec_sum[j] / dec_cnt[j] as f64 }).collect();
-    if mid.len() != d || mid.iter().zip(&want_mid).any(|(a, b)| !((to64(*a) - b).abs() <= 1e-6)) {
+    if mid.len() != d || mid.iter().zip(&want_mid).any(|(a, b)| !((to64(*a) - b).abs() <= 5e-6)) {
         report(
             "importance.mean_impurity_decrease_mismatch",
             format!("mean_impurity_decrease() = {:?}, the per-feature mean of the split nodes' reported decreases is {:?}", mid.iter().map(|v| to64(*v)).collect::<Vec<_>>(), want_mid),
@@ -824,7 +851,7 @@ fn run_typed<F: Float, L: Label + Default + std::fmt::Debug>(case: &Case, names:
         if !viols.is_empty() {
             st.violating_evals += 1;
         }
-        sink(Event::Done(ci, viols, st));
+        sink(Event::Done(viols, st));
     }
 }
 
@@ -970,7 +997,7 @@ fn worker_main() -> ! {
             Ok(_) => {}
         }
         let req: Value = serde_json::from_str(&line).expect("worker request");
-        let mut case: Case = serde_json::from_value(req["case"].clone()).expect("worker case");
+        let mut case: Case = serde_json::from_value::<Case>(req["case"].clone()).expect("worker case").exact();
         if let Some(g) = req.get("grid").and_then(|g| g.as_array()) {
             case.configs = grid(g[0].as_u64().unwrap() as u8, g[1].as_u64().unwrap() as u8);
         }
@@ -980,7 +1007,7 @@ fn worker_main() -> ! {
             let mut raw: Vec<RawViol> = Vec::new();
             let mut sink = |e: Event| match e {
                 Event::Start(ci) => CURRENT_CONFIG.store(ci, std::sync::atomic::Ordering::Relaxed),
-                Event::Done(_, v, s) => {
+                Event::Done(v, s) => {
                     raw.extend(v);
                     st.merge(&s);
                 }
@@ -1140,8 +1167,8 @@ fn run_lite(l: &Lite, viols: &mut Vec<Violation>) -> (Case, Stats) {
 }
 
 fn replay_value(v: &Value) -> Vec<Violation> {
-    let c: Case = match serde_json::from_value(v.clone()) {
-        Ok(c) => c,
+    let c: Case = match serde_json::from_value::<Case>(v.clone()) {
+        Ok(c) => c.exact(),
         Err(e) => {
             println!("MACHINERY-ERROR replay case does not parse: {}", e);
             std::process::exit(2);
@@ -1283,14 +1310,14 @@ fn enumerate_cases(ctx: &Ctx) -> Vec<Lite> {
         for n in 2..=ctx.pick(3, 4) {
             let sets = datasets(4, n, 3);
             let mut vars = vec![v(fl, "usize", 0, 1, 0)];
-            if n <= 2 || (ctx.thorough() && n <= 3) {
+            if n <= 3 {
                 vars.push(v(fl, "string", 1, 1, 0));
             }
             push_family(&mut out, fam, &alpha, &sets, &vars);
         }
     }
     // E: values closer than / about the 1e-5 margin
-    let alpha_e: Vec<Vec<f64>> = vec![vec![0.0], vec![8e-6], vec![1.6e-5], vec![1e-5 + 1.6e-5], vec![1.0]];
+    let alpha_e: Vec<Vec<f64>> = vec![vec![0.0], vec![8e-6], vec![1.6e-5], vec![2.6e-5], vec![1.0]];
     for n in 2..=ctx.pick(4, 5) {
         let sets = datasets(5, n, 3);
         let mut vars = vec![v("f64", "usize", 0, 1, 0)];
@@ -1326,7 +1353,7 @@ fn main() {
     ctx.assume("reported impurity decrease vs decrease recomputed in f64 from the definition: absolute tolerance 5e-6 (the subject computes impurities in f32; absorbs hash-map summation order); actual decreases within 5e-6 of min_impurity_decrease are counted indeterminate");
     ctx.assume("all sample weights are dyadic (1, 2, 0.5) so class weights are exact in f32 and f64: a leaf must predict ANY label whose weight equals the maximum exactly (ties accepted, whatever the hash order picks)");
     ctx.assume("min_weight_split is checked against the NUMBER of rows reaching the node (as the property states and the code does); nodes whose total WEIGHT is below it are only counted (parameter doc speaks of weight)");
-    ctx.assume("feature importances: >= 0, finite, sum to 1 within 1e-9 (f64) / 1e-5 (f32), only demanded when the tree has a split; mean_impurity_decrease vs own mean of reported decreases within 1e-6");
+    ctx.assume("feature importances: >= 0, finite, sum to 1 within 1e-9 (f64) / 1e-5 (f32), only demanded when the tree has a split; mean_impurity_decrease vs own mean of reported decreases within 5e-6");
     ctx.assume("hash-map order is a controlled input: in-binary getrandom override + one fresh thread per case keyed by the case's hash_seed (self-tested at start-up); VERIF_SEED plays no role");
     ctx.assume("the subject runs in worker processes (one per harness thread): TreeNode::fit can recurse without end and the resulting stack overflow aborts the process; a worker killed by a signal = violation of the configuration it was running (named by its SIGABRT handler), the case is then re-run without that configuration; before an unbounded fit the same configuration is fitted with max_depth = n + 1 and a tree deeper than n - 1 is reported instead of running the unbounded fit");
     ctx.assume("empty datasets, non-finite values, zero / negative weights and min_weight_leaf <= 0 are outside the enumerated domain");
